@@ -197,3 +197,39 @@ Theorem C16_coincident_pieces_are_typed :
   e_edge_type (getE (sq_st s') se1) =
     (if Bool.eqb (e_in_out (getE (sq_st s) se1)) (e_in_out (getE (sq_st s) se2)) then SameTransition else DifferentTransition).
 Proof. exact pi_overlap_types. Qed.
+
+(** the footprint of the step, EVERY instance: no point moves, and the partner link of no
+    event other than the two given ones, their partners and the events the step creates
+    changes *)
+From GB Require Import PiFrame.
+Theorem C16_step_footprint :
+  forall (N : Num) (cfg : Outcome.config) (s : sq N) (se1 se2 other1 other2 : eid) (s' : sq N) (code : nat),
+  sqinv N s -> mapped N (sq_st s) se1 -> mapped N (sq_st s) se2 ->
+  e_other (getE (sq_st s) se1) = Some other1 -> e_other (getE (sq_st s) se2) = Some other2 ->
+  se1 <> se2 -> se1 <> other2 -> se2 <> other1 ->
+  possible_intersection cfg s se1 se2 = Outcome.Ok (s', code) ->
+  (forall k, mapped N (sq_st s) k -> mapped N (sq_st s') k) /\
+  (forall k, mapped N (sq_st s) k -> e_point (getE (sq_st s') k) = e_point (getE (sq_st s) k)) /\
+  (forall k, mapped N (sq_st s) k -> k <> se1 -> k <> se2 -> k <> other1 -> k <> other2 ->
+             e_other (getE (sq_st s') k) = e_other (getE (sq_st s) k)).
+Proof. exact pi_frame_ok. Qed.
+
+(** all answers of the step in one statement, exact instance: in a store of the sweep of a
+    valid input ([einv2], and [disj]: no overlapping sub-segments of one operand) the two
+    sub-segments that start at the given left events are afterwards RESOLVED: they meet in end
+    points of both only, or they belong to different operands and coincide completely *)
+From GB Require Import SameOperand PairResolveAll.
+Theorem C16_every_tested_pair_is_resolved :
+  forall (edges : list edge) (cfg : Outcome.config) (s s' : sq NQ) (se1 se2 : eid) (code : nat),
+  sqinv NQ s -> einv2 edges (sq_st s) -> disj (sq_st s) ->
+  mapped NQ (sq_st s) se1 -> mapped NQ (sq_st s) se2 -> se1 <> se2 ->
+  e_left (getE (sq_st s) se1) = true -> e_left (getE (sq_st s) se2) = true ->
+  possible_intersection cfg s se1 se2 = Outcome.Ok (s', code) ->
+  exists na nb pax pay nax nay pbx pby nbx nby,
+    e_other (getE (sq_st s') se1) = Some na /\ e_other (getE (sq_st s') se2) = Some nb /\
+    e_point (getE (sq_st s') se1) = fpt pax pay /\ e_point (getE (sq_st s') na) = fpt nax nay /\
+    e_point (getE (sq_st s') se2) = fpt pbx pby /\ e_point (getE (sq_st s') nb) = fpt nbx nby /\
+    (meet_at_ends pax pay nax nay pbx pby nbx nby \/
+     (negb (Bool.eqb (e_is_subject (getE (sq_st s) se1)) (e_is_subject (getE (sq_st s) se2))) = true /\
+      qeqp pax pay pbx pby /\ qeqp nax nay nbx nby)).
+Proof. exact pi_resolves. Qed.
